@@ -170,7 +170,7 @@ def structured_families() -> tuple[dict, dict]:
     return comps, fam
 
 
-def structured(rep, d, pkg: str = "structured", comps=None, fam=None, doc=None, names=None) -> None:
+def structured(rep, d, pkg: str = "structured", comps=None, fam=None, doc=None, names=None, prop: str = "C02") -> None:
     if fam is None:
         comps, fam = structured_families()
     schemas = {**comps, **{k: v[0] for k, v in fam.items()}}
@@ -178,7 +178,7 @@ def structured(rep, d, pkg: str = "structured", comps=None, fam=None, doc=None, 
     doc = doc or gen.mkdoc(schemas=schemas)
     g = gen.generate(doc, d / pkg)
     if g["exc"] or g["rejected"] or g["diags"]:
-        rep.violate(f"C02/{pkg}-family-not-generated", f"{pkg} families did not generate cleanly: {g['exc'] or g['diags'][:2]}", doc=doc)
+        rep.violate(f"{prop}/{pkg}-family-not-generated", f"{pkg} families did not generate cleanly: {g['exc'] or g['diags'][:2]}", doc=doc)
         return
     # drive through a tiny inline runner (whole-document round trip)
     import subprocess
@@ -209,7 +209,7 @@ print(json.dumps(out))
     p = subprocess.run([VENV_PY, "-I", "-c", script], input=json.dumps({"parent": str(d), "pkg": pkg, "names": names or {}, "fam": {k: v[1] for k, v in fam.items()}}),
                        capture_output=True, text=True, timeout=300)
     if p.returncode != 0:
-        rep.violate(f"C02/{pkg}-family-import", f"{pkg} package failed in the sandbox: " + p.stderr[-800:], doc=doc)
+        rep.violate(f"{prop}/{pkg}-family-import", f"{pkg} package failed in the sandbox: " + p.stderr[-800:], doc=doc)
         return
     res = json.loads(p.stdout.strip().splitlines()[-1])
     for (k, (schema, insts)), val in zip(fam.items(), validity):
@@ -218,16 +218,16 @@ print(json.dumps(out))
             if not ok:
                 continue
             if not r["ok"]:
-                rep.violate(f"C02/{pkg}/{k}/valid-instance-rejected", f"{k}: valid instance {json.dumps(inst)} fails: {r['err']}", schema=schema, instance=inst)
+                rep.violate(f"{prop}/{pkg}/{k}/valid-instance-rejected", f"{k}: valid instance {json.dumps(inst)} fails: {r['err']}", schema=schema, instance=inst)
             elif not r["plain"]:
-                rep.violate(f"C02/{pkg}/{k}/not-plain-json", f"{k}: encoded form is not plain JSON: {r['enc']}", schema=schema, instance=inst)
+                rep.violate(f"{prop}/{pkg}/{k}/not-plain-json", f"{k}: encoded form is not plain JSON: {r['enc']}", schema=schema, instance=inst)
             elif not r["same"] and isinstance(r["enc"], dict) and _only_added_empty_lists(inst, r["enc"]):
-                rep.violate("C02/absent-optional-list-becomes-empty/structured", f"{k}: {json.dumps(inst)} re-encodes as {json.dumps(r['enc'])}",
+                rep.violate(f"{prop}/absent-optional-list-becomes-empty/structured", f"{k}: {json.dumps(inst)} re-encodes as {json.dumps(r['enc'])}",
                             schema=schema, instance=inst, got=r["enc"])
             elif not r["same"]:
-                rep.violate(f"C02/{pkg}/{k}/round-trip", f"{k}: {json.dumps(inst)} re-encodes as {json.dumps(r['enc'])}", schema=schema, instance=inst, got=r["enc"])
+                rep.violate(f"{prop}/{pkg}/{k}/round-trip", f"{k}: {json.dumps(inst)} re-encodes as {json.dumps(r['enc'])}", schema=schema, instance=inst, got=r["enc"])
             elif r["redec"] is not True:
-                rep.violate(f"C02/{pkg}/{k}/redecode-differs", f"{k}: decoding the re-encoded value gives a different object", schema=schema, instance=inst)
+                rep.violate(f"{prop}/{pkg}/{k}/redecode-differs", f"{k}: decoding the re-encoded value gives a different object", schema=schema, instance=inst)
     rep.extra[f"{pkg}_families"] = len(fam)
     rep.extra[f"{pkg}_valid_instances"] = sum(sum(1 for ok in val if ok) for val in validity)
 
